@@ -74,9 +74,9 @@ theorem CodeAt.tail3 {P k l op a r} (h : CodeAt P k (li l op a :: r)) (ha : op.h
 syntax "ip_arith" : tactic
 macro_rules
   | `(tactic| ip_arith) =>
-    `(tactic| (simp only [lsize_append, lsize_cons, lsize_nil, size_li, Op.hasArg, emitCond, emitLoop, List.map_cons,
+    `(tactic| ((try simp only [lsize_append, lsize_cons, lsize_nil, size_li, Op.hasArg, emitCond, emitLoop, List.map_cons,
                 List.map_nil, List.cons_append, List.nil_append, List.append_assoc,
-                Bool.false_eq_true, if_true, if_false] <;> omega))
+                Bool.false_eq_true, if_true, if_false]) <;> omega))
 
 /-- a successful run to the canonical end state, then anything -/
 theorem Runs.andThen {c P s r ip st scs σ lim Q} (h1 : Runs c P s (outcome r ip st scs σ lim))
